@@ -137,6 +137,18 @@ def _run_one(spec, tier, seed, replay=None):
                 axioms_used.update(a for a in ax if C.axiom_ok(a))
                 discharged += 1
 
+    # thorough tier: independent re-check of the compiled property file with coqchk
+    if coq["ok"] and tier == "thorough" and not replay and not spec.get("skip_coqchk"):
+        ck = C.coqchk(group, spec["module"])
+        if not ck["ok"]:
+            proof_failures.append("coqchk rejected %s: %s" % (spec["module"], ck["tail"][-400:]))
+        else:
+            bad = [a for a in ck["axioms"] if not C.axiom_ok(a.split()[0]) and not C.is_primitive(a.split()[0])]
+            if bad:
+                proof_failures.append("coqchk reports non-allowed axioms in the context of %s: %s" % (spec["module"], bad[:5]))
+            notes.append("coqchk -o %s: ok, axioms in context: %s" % (spec["module"], ", ".join(ck["axioms"]) or "<none>"))
+            checker_cmd += " + coqchk -o -silent " + spec["module"]
+
     # 3. harness + driver ------------------------------------------------------
     infra_errors = []
     hb = C.build_harness(spec["harness_bin"])
